@@ -8,6 +8,7 @@ those paths; every handler hands its own constraint container to its
 arguments.  Not decided: behaviour under actual schedules, races inside
 boost/libstdc++."""
 import os
+import re
 
 from .. import effects
 from ..cfg import call_closure, call_path
@@ -178,6 +179,18 @@ def run(chk):
                             deps.append('this')
                         elif x.get('k') == 'DeclRefExpr' and x.get('ref', {}).get('sto') in ('param', 'local'):
                             deps.append(x['ref']['name'])
+                # a static (smart) pointer to a NON-const object is one mutable object shared by every handler that gets
+                # it - the pointer may be const, the pointee is not
+                t = (d.get('t') or '')
+                m_ptr = re.search(r'(?:shared_ptr|unique_ptr)<\s*(const\s+)?([^>]+)>', t) or \
+                    re.search(r'^(const\s+)?([\w:<>, ]+?)\s*\*\s*(?:const)?$', t)
+                if m_ptr and not m_ptr.group(1) and 'char' not in m_ptr.group(2) and 'mutex' not in t:
+                    uses = [x for x in f.walk() if x.get('k') == 'DeclRefExpr' and x['ref'].get('did') == d.get('did')]
+                    chk.check(not uses, 'R4', f.name, 'no process-wide mutable object is handed out through the '
+                              'function-local static pointer %s' % d['name'], f.loc(n_),
+                              'every caller receives the same %s object (the pointer is static, the object it points '
+                              'to is not const); reached via %s' % (m_ptr.group(2).strip()[:60], ' <- '.join(
+                                  reversed(call_path(closure, key)[-4:]))))
                 chk.check(not deps, 'R4', f.name, 'function-local static %s does not memoise data of the first call'
                           % d['name'], f.loc(n_), 'its initialiser uses %s: the value computed for the first handler '
                           'is served to every later one; reached via %s' % (
